@@ -5,7 +5,7 @@ from .. import oracle as o
 ID = 'C15'
 RULE = ('field: straight-line programs over the public operators inside the operand discipline the crate itself uses (ref10 magnitude units: add/sub add the units of their operands and every consumer '
         '- mul, square, invert, pow, encoding, sign/zero tests, == - receives at most 3 units), every register compared with Python integers mod p (canonical bytes, sign, zero test, ==), inputs from boundary and limb-boundary '
-        'values, plus algebraic-identity programs that reach zero by different routes; scalars: wide reduction on 0, L-1, L, L+1, kL(+-1), every 2^k, sparse and dense patterns, '
+        'values, plus algebraic-identity programs that reach zero by different routes and result-directed programs x*(x^-1*T) whose product must encode as a target T with extreme limb patterns; scalars: wide reduction on 0, L-1, L, L+1, kL(+-1), every 2^k, sparse and dense patterns, '
         'canonical decoder on values around L and byte-reversed L; group: fixed-base multiplication for every single-nibble scalar and boundary scalars, double-scalar '
         'multiplication incl. every small odd b and 2^k-j, doubling/addition/conversion chains, decode(encode(P)), every precomputed table entry and every select() argument '
         '(through the read-only hook); distinct = (op family, shape/class)')
@@ -25,6 +25,27 @@ FE_INPUTS = [0, 1, 2, 19, P - 1, P, P + 1, P - 2, P + 18, (1 << 255) - 1, (1 << 
              int('55' * 32, 16), int('aa' * 32, 16) & M255, ((1 << 255) - 1) ^ ((1 << 128) - 1), (1 << 128) - 1]
 
 
+def structured_fe(rng):
+    """a 255/256-bit value whose 25.5-bit (32-bit backend) or 51-bit (64-bit backend) limbs are all-ones / zero / one patterns"""
+    v = 0
+    if rng.below(2):
+        pos = 0
+        for i in range(10):
+            w = 26 if i % 2 == 0 else 25
+            c = rng.below(8)
+            limb = rng.below(1 << w) if c >= 6 else [0, 1, (1 << w) - 1, (1 << w) - 2, 1 << (w - 1), (1 << w) - 19][c]
+            v |= limb << pos
+            pos += w
+    else:
+        for i in range(5):
+            c = rng.below(8)
+            limb = rng.below(1 << 51) if c >= 6 else [0, 1, (1 << 51) - 1, (1 << 51) - 2, 1 << 50, (1 << 51) - 19][c]
+            v |= limb << (51 * i)
+    if rng.below(4) == 0:
+        v |= 1 << 255
+    return v
+
+
 def fe_program(rng, nops):
     """random straight-line program.  Magnitude bookkeeping in ref10 "units" (1 unit = a freshly carried element:
     from_bytes / mul / square / invert / pow output): add/sub add the units of their operands, neg keeps them; every consumer
@@ -33,7 +54,8 @@ def fe_program(rng, nops):
     steps, units = [], []
     nin = rng.rng(2, 5)
     for _ in range(nin):
-        v = rng.choice(FE_INPUTS) if rng.below(3) else int.from_bytes(rng.bytes(32), 'little')
+        c = rng.below(6)
+        v = rng.choice(FE_INPUTS) if c < 2 else (structured_fe(rng) if c < 4 else int.from_bytes(rng.bytes(32), 'little'))
         steps.append('in.' + le32(v)); units.append(1)
     for _ in range(nops):
         r = rng.below(100)
@@ -66,7 +88,8 @@ def fe_program(rng, nops):
 def identity_programs(rng):
     """programs whose last registers are equal mod p by construction but reached through different limb patterns"""
     def rv():
-        return le32(rng.choice(FE_INPUTS) if rng.below(4) == 0 else int.from_bytes(rng.bytes(32), 'little'))
+        c = rng.below(8)
+        return le32(rng.choice(FE_INPUTS) if c < 2 else (structured_fe(rng) if c < 4 else int.from_bytes(rng.bytes(32), 'little')))
     x, y, z = rv(), rv(), rv()
     zero = le32(0); one = le32(1)
     progs = [
@@ -85,6 +108,33 @@ def identity_programs(rng):
          'in.' + le32((1 << 51) - 1), 'in.' + le32(1 << 51), 'add.7.1', 'eq.9.8', 'in.' + le32(P + 5), 'in.' + le32(5), 'eq.10.11', 'in.' + le32((1 << 255) + 24), 'eq.12.11'],
     ]
     return progs
+
+
+LIMB_EXPS = [0, 25, 26, 51, 76, 77, 102, 127, 128, 153, 178, 179, 204, 229, 230, 255]
+
+
+def directed_targets(rng, n):
+    """field values with extreme limb patterns for the *result* of a multiplication"""
+    out = []
+    for a in LIMB_EXPS:
+        for b in LIMB_EXPS:
+            if a > b:
+                out += [(1 << a) + (1 << b), (1 << a) - (1 << b), P - (1 << a) + (1 << b), P - (1 << a) - (1 << b)]
+    out += list(range(0, 40)) + [P - k for k in range(1, 40)] + [(1 << 51) - 1, (1 << 51), (1 << 51) + 19, (1 << 26) - 19, (1 << 255) - 20]
+    out = [v % P for v in out]
+    rng.shuffle(out)
+    out = out[:n]
+    out += [structured_fe(rng) % P for _ in range(n // 2)]
+    return out
+
+
+def result_directed_program(rng, T):
+    """r = x * (x^-1 * T) == T : the multiplication's output (whatever its internal representation) must encode as T"""
+    x = int.from_bytes(rng.bytes(32), 'little') if rng.below(4) else structured_fe(rng)
+    if x % P == 0:
+        x = 3
+    # regs: 0 x, 1 T, 2 inv x, 3 inv*T, 4 x*(inv*T), 5 T*T? no: 5 = (x*T)*inv, then sums/differences of the two routes
+    return ['in.' + le32(x), 'in.' + le32(T), 'inv.0', 'mul.2.1', 'mul.0.3', 'mul.0.1', 'mul.5.2', 'eq.4.1', 'eq.6.1', 'eq.4.6', 'sub.4.6', 'sub.6.1', 'add.4.1']
 
 
 def single_nibble_scalars():
@@ -108,6 +158,8 @@ def gen(tier, seed):
     for _ in range(1500 if thorough else 300):
         for pr in identity_programs(rng):
             yield 'fe %s #fe-identity' % ' '.join(pr)
+    for T in directed_targets(rng, 2500 if thorough else 500):
+        yield 'fe %s #fe-result-directed' % ' '.join(result_directed_program(rng, T))
     for v in FE_INPUTS:
         yield 'fe in.%s in.%s mul.0.1 sq.0 inv.0 pow.0 sq2.0 sqn.0.4 add.0.1 sub.1.0 neg.0 eq.0.1 #fe-edge' % (le32(v), le32(rng.choice(FE_INPUTS)))
     # ---- scalars
@@ -119,11 +171,36 @@ def gen(tier, seed):
         # sparse / structured: zero low part, random high part
         hi = int.from_bytes(rng.bytes(rng.rng(1, 31)), 'little')
         wide.append((hi << (8 * rng.choice([32, 33, 34, 40]))) & ((1 << 512) - 1))
+    # structured limbs: ref10 loads 24 x 21-bit limbs (32-bit backend), donna 56-bit limbs (64-bit backend); all-ones / zero / one
+    # limbs produce the extreme carry patterns of the folding steps
+    pats21 = [0, 1, 0x1fffff, 0x1ffffe, 0x100000, 0x0fffff]
+    for _ in range(60000 if thorough else 12000):
+        v = 0
+        dense = rng.below(3)
+        for i in range(25):
+            c = rng.below(10)
+            limb = rng.below(1 << 21) if (c >= 7 and dense) else pats21[c % 6]
+            v |= limb << (21 * i)
+        wide.append(v & ((1 << 512) - 1))
+    pats56 = [0, 1, (1 << 56) - 1, (1 << 56) - 2, 1 << 55]
+    for _ in range(6000 if thorough else 1500):
+        v = 0
+        for i in range(10):
+            c = rng.below(8)
+            v |= (rng.below(1 << 56) if c >= 6 else pats56[c % 5]) << (56 * i)
+        wide.append(v & ((1 << 512) - 1))
     for v in wide:
         yield 'sc_reduce %s #sc-reduce' % (v % (1 << 512)).to_bytes(64, 'little').hex()
     canon = [0, 1, L - 1, L, L + 1, L - 2, L + 2, (1 << 252), (1 << 252) - 1, (1 << 253) - 1, (1 << 255) - 1, (1 << 256) - 1, 2 * L, 2 * L - 1,
              int.from_bytes(L.to_bytes(32, 'big'), 'little'), int.from_bytes(L.to_bytes(32, 'big'), 'little') + 1, int.from_bytes(L.to_bytes(32, 'big'), 'little') - 1]
     canon += [L - k for k in range(3, 300)] + [L + (1 << k) for k in range(0, 252, 7)] + [L - (1 << k) for k in range(0, 252, 7)]
+    c_ = L - (1 << 252)
+    for j in range(5):
+        for a in (1, 2, 1 << 27, (1 << 55), (1 << 56) - 1, rng.below(1 << 56) | 1):
+            for b in (0, 1, c_ - 1, c_, c_ + 1, rng.below(c_)):
+                canon.append(((1 << 252) + (a << (56 * j) if j < 4 else a << 224) + b) % (1 << 256))
+                canon.append((a << (56 * j)) + b if j < 4 else (a << 196) + b)
+    canon += [L - 1 + (1 << k) for k in range(0, 256, 3)] + [(1 << 252) + (1 << k) for k in range(0, 252, 3)]
     canon += [int.from_bytes(rng.bytes(32), 'little') for _ in range(200)] + [int.from_bytes(rng.bytes(32), 'little') % L for _ in range(100)]
     for v in canon:
         yield 'sc_canon %s #sc-canon' % le32(v)
@@ -370,7 +447,7 @@ def san_subset(lines):
     out = []
     for l in lines:
         c = l.partition(' #')[2]
-        if c in ('fe-identity', 'fe-edge') and rng.below(40) == 0:
+        if c in ('fe-identity', 'fe-edge', 'fe-result-directed') and rng.below(40) == 0:
             out.append(l)
         elif c in ('sc-reduce', 'sc-canon') and rng.below(60) == 0:
             out.append(l)
